@@ -132,7 +132,8 @@ def run(chk):
         elif kind == "object":
             i = rng.randrange(len(pop))
             probed = pop[i]
-            sel = rng.choice(["o%d.%s > %s", "o%d.%s(x) > %s"]) % (i, mname, var)
+            form = rng.choice(["o%d.%s > %s", "o%d.%s(x) > %s", "o%d.%s(RECV) > %s", "o%d.%s(RECV as who, x) > %s"])
+            sel = (form % (i, mname, var)).replace("RECV", recvname)
         elif kind == "path":
             probed, sel = rng.choice([(pop[0], "holder.obj.%s > %s" % (mname, var)),
                                       (pop[1], "holder.inner.obj.%s > %s" % (mname, var))])
@@ -203,7 +204,8 @@ def run(chk):
         # ---- oracle: the property's own words
         cap = var if kind != "global" else "G"
         got = [(e["args"][cap]["values"][0]["v"],
-                e["args"][recvname]["values"][0]["oid"] if recvname in e["args"] else None) for e in events]
+                e["args"][recvname]["values"][0]["oid"] if recvname in e["args"] else
+                (e["args"]["who"]["values"][0]["oid"] if "who" in e["args"] else None)) for e in events]
         want = []
         for (m, i, x) in calls:
             if m != mname:
